@@ -118,3 +118,4 @@ pub mod sched;
 pub mod gatewire;
 pub mod progwire;
 pub mod ast;
+pub mod calgen;
